@@ -281,3 +281,20 @@ package escape
 //@   ensures map_lookup: istype(instruction, *ssa.Lookup) && IsEscapeTracked(instruction.(*ssa.Lookup).Type()) ==> called(LoadField, g, _, _, _, _, _)
 //@   ensures change_interface: istype(instruction, *ssa.ChangeInterface) ==> called(WeakAssign, g, _, _)
 //@   ensures slice_to_array_pointer: istype(instruction, *ssa.SliceToArrayPointer) ==> called(WeakAssign, g, _, _)
+
+// C14: calling an unknown function (this is also how a go statement and a panic are
+// modelled) LEAKS everything its arguments point to: afterwards every pointee of
+// every argument has status Leaked, and no status was lowered.
+//@ func EscapeGraph.CallUnknown
+//@   property C14
+//@   requires g != nil && g.status != nil && g.edges != nil && g.rationales != nil && targetsAreNodes(g)
+//@   requires len(rets) == 0
+//@   ensures leaked: forall ai int, p *Node :: 0 <= ai && ai < len(args) && old(has(g.edges, args[ai]) && has(g.edges[args[ai]], p)) ==> g.status[p] >= Leaked
+//@   ensures extensive: statusGrew(g)
+//@   loop arg invariant grew: statusGrew(g) && targetsAreNodes(g)
+//@   loop arg invariant done_args: forall aj int, p *Node :: 0 <= aj && aj < iter(arg) && old(has(g.edges, args[aj]) && has(g.edges[args[aj]], p)) ==> g.status[p] >= Leaked
+//@   loop n invariant grew2: statusGrew(g) && targetsAreNodes(g)
+//@   loop n invariant done_args2: forall aj int, p *Node :: 0 <= aj && aj < iter(arg) && old(has(g.edges, args[aj]) && has(g.edges[args[aj]], p)) ==> g.status[p] >= Leaked
+//@   loop n invariant cur_arg: forall p *Node :: visited(n, p) ==> g.status[p] >= Leaked
+//@   loop ret invariant grew3: statusGrew(g)
+//@   loop ret invariant done_args3: forall aj int, p *Node :: 0 <= aj && aj < len(args) && old(has(g.edges, args[aj]) && has(g.edges[args[aj]], p)) ==> g.status[p] >= Leaked
